@@ -59,6 +59,7 @@ type TxnHist struct {
 	Buf      map[string]*string
 	Inserted map[string]bool
 	Locked   map[string]uint64 // key -> for-update ts of the successful lock
+	LockedAt map[string]uint64 // key -> event stamp at which that LockKeys call had returned
 	// InsertChecked: the insert's existence check is part of the protocol for this key: always
 	// for optimistic transactions; for pessimistic ones only when a LockKeys call succeeded on the
 	// key while the buffer entry carried the presume-not-exists flag (the check travels with the lock request).
@@ -112,6 +113,19 @@ func setKnobs(k Knobs) {
 	_ = failpoint.Disable("tikvclient/twoPCRequestBatchSizeLimit")
 	if k.CommitBatchSize > 0 {
 		_ = failpoint.Enable("tikvclient/twoPCRequestBatchSizeLimit", "return")
+	}
+	for _, site := range delaySites {
+		_ = failpoint.Disable("tikvclient/" + site)
+	}
+	for site, ms := range k.Delays {
+		switch site {
+		case "beforeAsyncPessimisticRollback":
+			_ = failpoint.Enable("tikvclient/"+site, `return("delay")`)
+		case "getTxnStatusDelay":
+			_ = failpoint.Enable("tikvclient/"+site, "return")
+		case "prewriteSecondarySleep":
+			_ = failpoint.Enable("tikvclient/"+site, fmt.Sprintf("return(%d)", ms))
+		}
 	}
 	_ = failpoint.Enable("tikvclient/injectLiveness", `return("reachable")`)
 	// The store's own poller re-reads the transaction safe point from PD every few seconds and overwrites the
@@ -262,6 +276,7 @@ func (w *World) runTxn(p *TxnProg, h *TxnHist) {
 	h.Buf = map[string]*string{}
 	h.Inserted = map[string]bool{}
 	h.Locked = map[string]uint64{}
+	h.LockedAt = map[string]uint64{}
 	h.InsertChecked = map[string]bool{}
 	h.InsertUncertain = map[string]bool{}
 	type stageRec struct {
@@ -431,27 +446,41 @@ func (w *World) runTxn(p *TxnProg, h *TxnHist) {
 				cp = nil
 			}
 		case "lock":
-			forTS, err := store.GetOracle().GetTimestamp(ctx, &oracleOpt)
-			if err != nil {
+			var forTS uint64
+			var err error
+			var lctx *kv.LockCtx
+			for attempt := 0; ; attempt++ {
+				if attempt > 0 {
+					w.Sim.Count("probe.lock-statement-retried")
+				}
+				forTS, err = store.GetOracle().GetTimestamp(ctx, &oracleOpt)
+				if err != nil {
+					break
+				}
+				r.ForTS = forTS
+				wait := kv.LockAlwaysWait
+				if op.NoWait {
+					wait = kv.LockNoWait
+				} else if op.WaitMs > 0 {
+					wait = int64(op.WaitMs)
+				}
+				lctx = kv.NewLockCtx(forTS, wait, time.Now())
+				if op.RetVals {
+					lctx.InitReturnValues(len(op.Keys))
+				}
+				var ks [][]byte
+				for _, k := range op.Keys {
+					ks = append(ks, []byte(k))
+				}
+				err = txn.LockKeys(ctx, lctx, ks...)
+				if err == nil || attempt >= op.Retry || w.Net.IsCut(p.Client) {
+					break
+				}
+			}
+			if lctx == nil {
 				r.Err = classify(err)
 				break
 			}
-			r.ForTS = forTS
-			wait := kv.LockAlwaysWait
-			if op.NoWait {
-				wait = kv.LockNoWait
-			} else if op.WaitMs > 0 {
-				wait = int64(op.WaitMs)
-			}
-			lctx := kv.NewLockCtx(forTS, wait, time.Now())
-			if op.RetVals {
-				lctx.InitReturnValues(len(op.Keys))
-			}
-			var ks [][]byte
-			for _, k := range op.Keys {
-				ks = append(ks, []byte(k))
-			}
-			err = txn.LockKeys(ctx, lctx, ks...)
 			if err != nil {
 				r.Err = classify(err)
 				// a failed LockKeys reports the failure (e.g. key-exists) to its caller and withdraws the
@@ -471,6 +500,7 @@ func (w *World) runTxn(p *TxnProg, h *TxnHist) {
 					}
 					if _, ok := h.Locked[k]; !ok {
 						h.Locked[k] = forTS
+						h.LockedAt[k] = s.Stamp()
 						if h.Inserted[k] && h.Buf[k] != nil {
 							h.InsertChecked[k] = true
 						}
